@@ -16,7 +16,7 @@ BOUNDED = ("Covers exactly the named alphabets and depth bounds (reported in the
            "oracle (self-tested against Python fractions), rustc/LLVM IEEE-754 semantics.")
 
 claim("C01",
-      "Bounded exhaustive exploration of the real Mean/Variance: every add-sequence over eleven adversarial value alphabets up to the depth bound, "
+      "Bounded exhaustive exploration of the real Mean/Variance: every add-sequence over thirteen adversarial value alphabets (offsets up to 1e11 spreads, mixed magnitudes 1e±30, tiny and huge scales) up to the depth bound, plus long lasso streams (every short word repeated to 2e3 / 1e5 observations), "
       "every prefix judged against exact rational statistics of its multiset under the DESIGN.md §4 envelopes (linear in kappa). "
       "A wrong formula or an unstable (kappa^2) formulation leaves the envelope by orders of magnitude on the offset alphabets; "
       "unit tests cannot do this because they have no oracle for arbitrary data.",
@@ -25,7 +25,7 @@ claim("C01",
 
 claim("C05",
       "Bounded exhaustive exploration of the real Quantile next to a from-the-paper P² reference: for 13 values of p, every stream over a tie-heavy 4-value and a distinct 6-value alphabet up to the depth bound (plus trending streams in the thorough tier); after each observation from the fifth, quantile() and the serde-visible marker heights and positions must equal the reference (positions exactly, heights within 2^-40 of the data span). "
-      "New minima/maxima, ties, p = 0/1 and all arrival orders are members of the enumerated family, which the suite's three fixed streams never reach.",
+      "Long streams are covered as a finite family: every word of length <= 3 (4) over {0,1,2,3} repeated to 300 (10^4) observations with linear trend 0, +0.5, -0.5 per step. New minima/maxima, ties, p = 0/1 and all arrival orders are members of the enumerated families, which the suite's three fixed streams never reach.",
       BOUNDED + " The reference model is trusted to transcribe Jain & Chlamtac 1985, Box 1.",
       "explicit-state BFS over add histories of the real estimator in lock-step with a reference model (P² as printed in the paper)")
 
@@ -40,7 +40,7 @@ claim("C07",
       "explicit-state BFS (depth 4) over add histories of the real estimator against an exact small-sample reference")
 
 claim("C10",
-      "Bounded exhaustive exploration: every add-sequence over seven alphabets (skew of both signs, offsets) for Variance, Skewness, Kurtosis and define_moments! types of order 4, 6, 10; sample_variance, variance_of_mean, error, sample_skewness and sample_excess_kurtosis at every prefix (below-minimum sizes included) against the textbook formulas on exact rational central moments, under the C03/C04 envelopes.",
+      "Bounded exhaustive exploration: every add-sequence over seven alphabets (skew of both signs, offsets) for Variance, Skewness, Kurtosis and define_moments! types of order 4, 6, 10; sample_variance, variance_of_mean, error, sample_skewness and sample_excess_kurtosis at every prefix (below-minimum sizes included) against the textbook formulas on exact rational central moments, under the C03/C04 envelopes; plus lasso streams to 2e3 / 1e5 observations and doubling merges to n = 2^41.",
       BOUNDED,
       "explicit-state BFS over add histories of the real estimators, exact-rational reference oracle on every transition")
 
@@ -50,7 +50,7 @@ claim("C15",
       "explicit-state BFS over add histories of the real estimator with state invariants and ghost min/max")
 
 claim("C02",
-      "Merge-tree exploration by intervals on the real collect()/merge(): for every word over 4-letter sub-alphabets of six adversarial alphabets (and 2-/3-letter alphabets to greater length) the set of ALL states producible by any composition into contiguous, possibly empty chunks and any binary merge tree, either merge direction at every node, is computed bottom-up and every state is judged against the exact statistics of the word under the single-pass envelopes; Mean, Variance, Skewness, Kurtosis, Moments4 and engine-defined define_moments! types of order 5, 6, 8, 10.",
+      "Merge-tree exploration by intervals on the real collect()/merge(): for every word over 4-letter sub-alphabets of six adversarial alphabets (and 2-/3-letter alphabets to greater length) the set of ALL states producible by any composition into contiguous, possibly empty chunks and any binary merge tree, either merge direction at every node, is computed bottom-up and every state is judged against the exact statistics of the word under the single-pass envelopes; Mean, Variance, Skewness, Kurtosis, Moments4 and engine-defined define_moments! types of order 5, 6, 8, 10. Large n is reached by doubling merges (an estimator merged with itself up to 34/40 times and all cross merges of two such chains, n up to 2^41), judged against the exact statistics of the weighted multiset.",
       BOUNDED + " Word length is bounded (5 quick / 6-9 thorough); long streams are not covered.",
       "exhaustive bottom-up enumeration of all merge trees over all chunkings of every short word on the real code, exact-rational oracle on every reachable state")
 
@@ -100,22 +100,22 @@ claim("C16",
       "explicit-state BFS over constant add histories of every estimator type against the documented sentinel table")
 
 claim("C17",
-      "No restriction on kappa: alphabets with offsets 1e15 times the spread, spreads of one ulp, subnormals, |x| = 1e150 and mixed magnitudes; every add-sequence up to the depth bound AND every merge tree over every chunking (interval exploration) for Mean, Variance, Skewness, Kurtosis, Moments4, M6, Covariance, WeightedMean(WithError); on every reachable state every variance-type accessor is >= 0 and not NaN whenever defined, every mean lies inside the data range up to 8·n·u·max|x|, effective_len in [1, len]; histogram bin variances for every count vector of total <= 6.",
+      "No restriction on kappa: alphabets with offsets 1e15 times the spread, spreads of one ulp, subnormals, |x| = 1e150 and mixed magnitudes; every add-sequence up to the depth bound AND every merge tree over every chunking (interval exploration) for Mean, Variance, Skewness, Kurtosis, Moments4, M6, Covariance, WeightedMean(WithError); on every reachable state every variance-type accessor is >= 0 and not NaN whenever defined, every mean lies inside the data range up to 8·n·u·max|x|, effective_len in [1, len]; histogram bin variances for every count vector of total <= 6; plus merges of constant runs of ADJACENT floating-point values (nine base values, neighbour distance 1..3 ulps, all run lengths up to 8/16, three-run nestings), where an unsafe cross term goes negative.",
       BOUNDED,
       "explicit-state BFS plus exhaustive merge-tree enumeration on the real code with sign/range invariants on every state")
 
 claim("C18",
-      "For every serialisable estimator type (incl. Quantile at four p, histograms LEN 2/10/100): BFS over add, merge(collect(w)) and checkpoint = serde_json(float_roundtrip) round trip replacing the object; at EVERY reachable state the checkpoint transition is checked differentially with no expected values: serialising leaves the estimator unchanged, the restored copy's Debug string and every accessor are bit-identical, and every continuation of up to two further operations stays bit-identical on both copies.",
+      "For every serialisable estimator type (incl. Quantile at four p, histograms LEN 2/10/100): BFS over add, merge(collect(w)) and checkpoint = serde_json(float_roundtrip) round trip replacing the object; at EVERY reachable state the checkpoint transition is checked differentially with no expected values: serialising leaves the estimator unchanged, the restored copy's Debug string and every accessor are bit-identical, and every continuation of up to two further operations stays bit-identical on both copies; plus long periodic streams with a checkpoint after EVERY observation, the restored copy carried forward next to the uninterrupted one (Quantile at eight values of p incl. non-dyadic ones).",
       BOUNDED + " States with a non-finite field (fresh Min/Max) are outside the statement and skipped (counted).",
       "explicit-state BFS with a checkpoint/restore transition at every state and a differential (restored vs uninterrupted) oracle over all 2-step continuations")
 
 claim("C19",
-      "Decided at the rayon plumbing seam: a scripted ParallelIterator drives the crate's real FromParallelIterator impls (fold(new, add).reduce(new, merge)) through EVERY binary split tree over every composition of every short word (188 trees for 6 items, empty leaves, both execution orders for small trees), for f64 and &f64, sequentially and deterministically; len exact, Min/Max exactly sequential, every statistic inside the envelope of the exact statistics. Bound to real rayon by trace validation: real pools of 1..16 threads x with_min_len/with_max_len over a logging producer; every recorded split tree is replayed through the scripted driver and must give the bit-identical estimator.",
+      "Decided at the rayon plumbing seam: a scripted ParallelIterator drives the crate's real FromParallelIterator impls (fold(new, add).reduce(new, merge)) through EVERY binary split tree over every composition of every short word (188 trees for 6 items, empty leaves, both execution orders for small trees), for f64 and &f64, sequentially and deterministically; len exact, Min/Max exactly sequential, every statistic inside the envelope of the exact statistics. Bound to real rayon by trace validation: real pools of 1..16 threads x with_min_len/with_max_len over a logging producer; every recorded split tree is replayed through the scripted driver and must give the bit-identical estimator. Long inputs (2^17+3 / 10^6+3 items) run through ten split-tree shapes.",
       BOUNDED + " rayon's scheduler (deques, latches) is trusted: it is not written against loom/shuttle types and cannot be intercepted; it is assumed to honour the documented Consumer/Folder/Reducer protocol.",
       "exhaustive enumeration of all consumer split trees at the rayon plumbing seam on the real code, plus conformance replay of split trees recorded from real rayon pools")
 
 claim("C20",
-      "For every type with FromIterator/Extend: every sequence up to the length bound over 3-value alphabets built through every initial piece (new, default, collect by value, collect by reference) followed by every composition into pieces fed by add loop / extend(values) / extend(references) (empty extends included); Debug string and every accessor bit-identical to the plain add loop, estimate() bit-equal to the headline accessor; four engine-defined concatenate! structs (2-4 fields, short and long syntax, with Quantile) compared accessor by accessor with the solo estimators for new(), default() and both collect forms.",
+      "For every type with FromIterator/Extend: every sequence up to the length bound over 3-value alphabets built through every initial piece (new, default, collect by value, collect by reference) followed by every composition into pieces fed by add loop / extend(values) / extend(references) (empty extends included); Debug string and every accessor bit-identical to the plain add loop, estimate() bit-equal to the headline accessor; four engine-defined concatenate! structs (2-4 fields, short and long syntax, with Quantile) compared accessor by accessor with the solo estimators for new(), default() and both collect forms; plus single long pieces (255..4096 items) through extend/collect against the add loop.",
       BOUNDED,
       "explicit-state BFS over ingestion histories of the real estimators with a differential oracle (plain add loop)")
 
